@@ -259,6 +259,11 @@ class SccContext:
     font_style = mid_row_code.get_font_style()
     text_decoration = mid_row_code.get_text_decoration()
 
+    if font_style is not None:
+      # the italics mid-row code keeps the current color: a color can only be changed by
+      # the mid-row code of another color, and any color mid-row code turns italics off
+      color = self.current_color
+
     if self.previous_word_type is not SccMidRowCode:
       # In case of multiple mid-row codes, move right only after the first code
 
@@ -291,12 +296,9 @@ class SccContext:
       self.current_text_decoration = text_decoration
 
     else:
-      if color is not None:
-        self.current_color = color
-      if font_style is not None:
-        self.current_font_style = font_style
-      if text_decoration is not None:
-        self.current_text_decoration = text_decoration
+      self.current_color = color
+      self.current_font_style = font_style
+      self.current_text_decoration = text_decoration
 
       if processed_caption is not None:
         processed_caption.append_text(" ")
